@@ -91,7 +91,7 @@ M('list-min-test-gt', 'break', ['C03'],
   (EX + 'list.py', "condition = LEN(staging) >= Code(self.min_len)", "condition = LEN(staging) > Code(self.min_len)"))
 M('list-max-zero-str-forgotten', 'break', ['C03'],
   (EX + 'list.py', "        if self.max_len == 0 or self.max_len == '0':", "        if self.max_len == 0:"))
-M('list-as-forgets-str-zero-benign', 'benign', ['C03'],
+M('list-as-forgets-str-zero-benign', 'benign', ['C03', 'C19'],
   (EX + 'list.py', "        return not self.min_len or self.min_len == '0'\n\n    def can", "        return not self.min_len\n\n    def can"))
 M('list-cp-old', 'break', ['C03'],
   (EX + 'list.py', "        if self.min_len != 1 and self.min_len != '1':\n            return True\n", ""))
@@ -127,3 +127,233 @@ M('run-rename-benign', 'benign', ['C07', 'C08', 'C18'],
   (TR, "    memo = {}\n    result = None\n\n    key = ($CALL, start, pos)", "    memo = dict()\n    result = None\n\n    key = ($CALL, start, pos)"))
 M('call-constant-one', 'break', ['C07'],
   (EX + 'constants.py', "CALL = 3", "CALL = 1"))
+
+GR = 'sourcer/grammar.py'
+
+# ---------------------------------------------------------------- C04
+M('ignore-flag-only-nonignored-rules', 'break', ['C04'],
+  (TR, "                visit(rules, _set_skip_ignored)", "                visit(rule, _set_skip_ignored)"))
+M('ignore-start-prefix-dropped', 'break', ['C04'],
+  (TR, "            first_rule.expr = ex.Right(Ref(impl_name), first_rule.expr)", "            pass"))
+M('ignore-class-start-fields', 'break', ['C04'],
+  (TR, "first_rule = start_rule.members[0] if start_rule.members else None", "first_rule = start_rule.fields[0] if start_rule.fields else None"))
+M('ignore-skip-rule-drops-last', 'break', ['C04'],
+  (TR, "        refs = [Ref(x.name) for x in ignored]", "        refs = [Ref(x.name) for x in ignored[:1]]"))
+M('regex-skips-on-failure-path', 'break', ['C04', 'C01'],
+  (EX + 'regex.py', "            out += RESULT << self.error_func()\n            out += STATUS << False\n\n    def complain", "            out += RESULT << self.error_func()\n            out += POS << utils.skip_ignored(POS, flags)\n            out += STATUS << False\n\n    def complain"))
+M('keywordarg-not-expression', 'break', ['C04', 'C06'],
+  (EX + 'call.py', "class KeywordArg(Expression):", "class KeywordArg:"))
+M('seq-skips-ignored-too', 'break', ['C04'],
+  (EX + 'seq.py', "            result = items if self.constructor is None else self.constructor(*items)", "            out += POS << utils.skip_ignored(POS, flags)\n            result = items if self.constructor is None else self.constructor(*items)"))
+
+# ---------------------------------------------------------------- C05
+M('let-binds-after-body', 'break', ['C05'],
+  (EX + 'let.py', "            out += Code(self.name) << RESULT\n            self.body.compile(out, flags)", "            saved = out.var('_bound', RESULT)\n            self.body.compile(out, flags)\n            out += Code(self.name) << saved"))
+M('passes-swapped', 'break', ['C05', 'C06'],
+  (TR, "    _update_local_references(rules)\n    _update_rule_references(rules, parsed.extends)", "    _update_rule_references(rules, parsed.extends)\n    _update_local_references(rules)"))
+M('where-keeps-predicate-value', 'break', ['C05'],
+  (EX + 'where.py', "                with out.IF(RESULT(arg)):\n                    out += RESULT << arg", "                with out.IF(RESULT(arg)):\n                    pass"))
+M('apply-order-swapped', 'break', ['C05', 'C02'],
+  (EX + 'apply.py', "result = first(RESULT) if self.apply_left else RESULT(first)", "result = RESULT(first) if self.apply_left else first(RESULT)"))
+M('class-ctor-includes-let-fields', 'break', ['C05'],
+  (EX + 'class_.py', "                    constructor_args=field_names,", "                    constructor_args=[n for n in all_names if n],"))
+M('class-repr-wrong-order', 'break', ['C05', 'C14'],
+  (EX + 'class_.py', "values = ', '.join(f'{x}={{self.{x}!r}}' for x in field_names)", "values = ', '.join(f'{x}={{self.{x}!r}}' for x in sorted(field_names))"))
+M('let-global-binding', 'break', ['C05', 'C18'],
+  (EX + 'let.py', "            out += Code(self.name) << RESULT\n", "            out += Code(f'global {self.name}')\n            out += Code(self.name) << RESULT\n"))
+
+# ---------------------------------------------------------------- C06
+M('argumentize-cutoff-old', 'break', ['C06', 'C11'],
+  (EX + 'base.py', "        if len(params) <= cutoff:\n            return func", "        if len(params) <= 3:\n            return func"))
+M('byte-argumentize-self', 'break', ['C06'],
+  (EX + 'byte.py', "value = Expression.argumentize(self, out, flags)", "value = self.argumentize(out, flags)"))
+M('call-kwargs-as-dict', 'break', ['C06'],
+  (EX + 'call.py', "tuple(args), tuple(kwargs))", "tuple(args), dict(kwargs))"),
+  (TR, "return self.func(${ctx}_text, _pos, *self.args, **dict(self.kwargs))", "return self.func(${ctx}_text, _pos, *self.args, **self.kwargs)"))
+M('parsefunction-call-drops-kwargs', 'break', ['C06'],
+  (TR, "        return self.func(${ctx}_text, _pos, *self.args, **dict(self.kwargs))", "        return self.func(${ctx}_text, _pos, *self.args)"))
+M('str-literal-wrapper-extra-arg', 'break', ['C06', 'C11'],
+  (TR, "class _StringLiteral(str):\n    def __call__(self, ${ctx}_text, _pos):\n        return self._parse_function(${ctx}_text, _pos)", "class _StringLiteral(str):\n    def __call__(self, ${ctx}_text, _pos):\n        return self._parse_function(_text, _pos)"))
+
+# ---------------------------------------------------------------- C08
+M('finalize-partial-returns', 'break', ['C08'],
+  (TR, "    if fullparse and pos < len(text):", "    if fullparse and pos + 1 < len(text):"))
+M('finalize-partial-result-copy', 'break', ['C08'],
+  (TR, "        raise PartialParseError(nodes, position, excerpt)", "        raise PartialParseError(list(nodes) if isinstance(nodes, list) else nodes, position, excerpt)"))
+M('run-failure-no-call', 'break', ['C08'],
+  (TR, "        message = result[1](text, pos)\n        raise ParseError(message, pos)", "        raise ParseError(str(result[1]), pos, None, None)"))
+M('entry-pos-default', 'break', ['C08', 'C11'],
+  (EX + 'rule.py', "with out.DEF(entry_name, ['text', 'pos=0', 'fullparse=True']):", "with out.DEF(entry_name, ['text', 'pos=0', 'fullparse=False']):"))
+M('class-parse-dict-key', 'break', ['C08', 'C06'],
+  (EX + 'class_.py', "out += _closure << _ParseFunction(parse_func, args, ())", "out += _closure << _ParseFunction(parse_func, args, {})"))
+M('finalize-unguarded-position', 'break', ['C08', 'C10'],
+  (TR, "        if index < len(line_numbers):\n            return _Position(index, line_numbers[index], column_numbers[index])\n        else:\n            return _Position(index, None, None)", "        return _Position(index, line_numbers[index], column_numbers[index])"))
+M('error-function-falls-through', 'break', ['C08'],
+  (TR, "                    Code('raise ParseError', (TITLE + Code('details'), POS, LINE, COL)),", "                    Code('return ', TITLE + Code('details')),"))
+
+# ---------------------------------------------------------------- C09
+M('excerpt-regime-40', 'break', ['C09'],
+  (TR, "    elif end - pos < 42:", "    elif end - pos < 40:"))
+M('excerpt-caret-off-by-one', 'break', ['C09'],
+  (TR, "_caret_at(pos - (end - 90) + 4)", "_caret_at(pos - (end - 90) + 3)"))
+M('excerpt-window-wider', 'break', ['C09'],
+  (TR, "text[start : start + 90] + ' ...'", "text[start : start + 100] + ' ...'"))
+M('linecol-column-from-one', 'break', ['C09'],
+  (TR, "    current_line = 1\n    current_column = 0", "    current_line = 1\n    current_column = 1"))
+M('linecol-newline-keeps-line', 'break', ['C09'],
+  (TR, "        if c == '\\n':\n            current_line += 1\n            current_column = 0\n        else:\n            current_column += 1\n        line_numbers.append(current_line)", "        line_numbers.append(current_line)\n        if c == '\\n':\n            current_line += 1\n            current_column = 0\n        else:\n            current_column += 1"))
+M('error-eoi-test-strict', 'break', ['C09'],
+  (TR, "with out.IF(Code('len')(TEXT) <= POS):", "with out.IF(Code('len')(TEXT) < POS):"))
+M('choice-farthest-not-strict', 'break', ['C09'],
+  (EX + 'choice.py', "                        condition = farthest_pos < POS", "                        condition = farthest_pos <= POS"))
+M('choice-reports-entry', 'break', ['C09'],
+  (EX + 'choice.py', "                    with out.IF(condition):\n                        out += farthest_pos << POS\n                        out += farthest_err << RESULT", "                    with out.IF(condition):\n                        out += farthest_err << RESULT"))
+M('excerpt-rename-benign', 'benign', ['C09'],
+  (TR, "    start = pos - (col - 1)\n    match = _compile_re('\\n').search(text, pos + 1)", "    start = pos - col + 1\n    match = _compile_re('\\n').search(text, pos + 1)"))
+
+# ---------------------------------------------------------------- C10
+M('span-start-after-first', 'break', ['C10'],
+  (EX + 'seq.py', "        if self.needs_parse_info:\n            start_pos = out.var('start_pos', POS)\n\n        cargs", "        cargs"),
+  (EX + 'seq.py', "            if self.needs_parse_info:\n                out += RESULT._metadata.position_info << (start_pos, POS)", "            if self.needs_parse_info:\n                out += RESULT._metadata.position_info << (POS, POS)"))
+M('span-end-exclusive', 'break', ['C10'],
+  (TR, "            end = max(start, end - 1)", "            end = max(start, end)"))
+M('span-convert-skips-falsy', 'benign', ['C10'],
+  (TR, "        if pos_info:\n            start, end = pos_info", "        if pos_info is not None:\n            start, end = pos_info"))
+M('span-column-from-line-table', 'break', ['C10'],
+  (TR, "            return _Position(index, line_numbers[index], column_numbers[index])", "            return _Position(index, line_numbers[index], line_numbers[index])"))
+
+# ---------------------------------------------------------------- C11
+M('rule-entry-forgets-ctx', 'break', ['C11', 'C08'],
+  (EX + 'rule.py', "                ctx = '_ctx, ' if flags.uses_context else ''\n", "                ctx = ''\n"))
+M('skip-ignored-forgets-ctx', 'break', ['C11', 'C13'],
+  (EX + 'utils.py', "    if flags.uses_context:\n        func = '_ctx.' + func\n", ""))
+M('include-source-changes-module', 'break', ['C11'],
+  (GR, "    name = parsed.name or 'grammar'", "    name = parsed.name or ('grammar_src' if include_source else 'grammar')"))
+M('freevars-unsorted', 'break', ['C11'],
+  (EX + 'base.py', "list(sorted(self.freevars()))", "list(self.freevars())"))
+M('template-assert', 'break', ['C11'],
+  (TR, "def _caret_at(index):\n    return", "def _caret_at(index):\n    assert index >= 0\n    return"))
+
+# ---------------------------------------------------------------- C13
+M('ref-super-through-ctx', 'break', ['C13'],
+  (EX + 'ref.py', "            and not resolved.startswith('_super_ctx.')):", "            and not resolved.startswith('_no_such_prefix.')):"))
+M('ref-argumentize-early-bound', 'break', ['C13', 'C11'],
+  (EX + 'ref.py', "    def argumentize(self, out, flags):\n        return self.target(flags)", "    def argumentize(self, out, flags):\n        return Code(self.resolved)"))
+M('wiring-skips-inherited', 'break', ['C13'],
+  (TR, "                    out += Code(f'_ctx.{impl_name} = _super_ctx.{impl_name}')\n                    visited_names.add(stmt.name)", "                    visited_names.add(stmt.name)"))
+M('resolve-parent-only', 'break', ['C13'],
+  (TR, "        ancestor = ancestor.extends\n\n    def check_refs", "        ancestor = None\n\n    def check_refs"))
+M('install-dotted-not-registered', 'break', ['C13'],
+  (GR, "def _install_module(name, module):\n    sys.modules[name] = module\n\n    if '.' not in name:\n        return", "def _install_module(name, module):\n    if '.' not in name:\n        sys.modules[name] = module\n        return"))
+M('subgrammar-import-list-short', 'break', ['C13', 'C11'],
+  (TR, "    _wrap_byte_literal,\n    _wrap_string_literal,\n    transform,", "    _wrap_string_literal,\n    transform,"))
+M('child-writes-parent-ctx', 'break', ['C13', 'C18'],
+  (TR, "            out += Code('_ctx._super_ctx = _super_ctx')", "            out += Code('_ctx._super_ctx = _super_ctx')\n            out += Code('_super_ctx._child = _ctx')"))
+
+# ---------------------------------------------------------------- C14
+M('eq-ignores-class', 'break', ['C14'],
+  (TR, "        if not isinstance(other, self.__class__):\n            return False\n", "        if not hasattr(other, '_fields'):\n            return False\n"))
+M('hash-includes-metadata', 'break', ['C14'],
+  (TR, "        for field in self._fields:\n            result ^= _hash(getattr(self, field))", "        result ^= id(self._metadata)\n        for field in self._fields:\n            result ^= _hash(getattr(self, field))"))
+M('hash-builtin-on-fields', 'break', ['C14'],
+  (TR, "            result ^= _hash(getattr(self, field))", "            result ^= hash(getattr(self, field))"))
+M('hash-helper-no-dict', 'break', ['C14'],
+  (TR, "        elif isinstance(value, dict):\n            result = 0\n            for pair in value.items():\n                result ^= _hash(pair)\n            return result\n", ""))
+M('replace-in-place', 'break', ['C14', 'C16'],
+  (TR, "        result = self.__class__(**kw)\n        result._metadata.update(self._metadata)\n        return result", "        for k, v in kw.items():\n            setattr(self, k, v)\n        return self"))
+M('replace-drops-metadata', 'break', ['C14', 'C16'],
+  (TR, "        result = self.__class__(**kw)\n        result._metadata.update(self._metadata)\n        return result", "        result = self.__class__(**kw)\n        return result"))
+M('metadata-getattr-old', 'break', ['C14'],
+  (TR, "        try:\n            fields = self.__dict__['_fields']\n        except KeyError:\n            raise AttributeError(name) from None\n        return fields.get(name)", "        return self._fields.get(name)"))
+M('infix-repr-swapped', 'break', ['C14'],
+  (TR, "return f'Infix({self.left!r}, {self.operator!r}, {self.right!r})'", "return f'Infix({self.operator!r}, {self.left!r}, {self.right!r})'"))
+M('asdict-sorted', 'break', ['C14'],
+  (TR, "return {k: getattr(self, k) for k in self._fields}", "return {k: getattr(self, k) for k in sorted(self._fields)}"))
+
+# ---------------------------------------------------------------- C15
+M('visit-no-reversed-fields', 'break', ['C15'],
+  (TR, "stack.extend(getattr(node, x) for x in reversed(node._fields))", "stack.extend(getattr(node, x) for x in node._fields)"))
+M('visit-no-reversed-list', 'break', ['C15'],
+  (TR, "        if isinstance(node, (list, tuple)):\n            stack.extend(reversed(node))", "        if isinstance(node, (list, tuple)):\n            stack.extend(node)"))
+M('visit-dict-keys', 'break', ['C15'],
+  (TR, "stack.extend(reversed(node.values()))", "stack.extend(reversed(list(node)))"))
+M('visit-bfs', 'break', ['C15'],
+  (TR, "def visit(node):\n    visited = set()\n    stack = [node]\n    while stack:\n        node = stack.pop()", "def visit(node):\n    visited = set()\n    stack = [node]\n    while stack:\n        node = stack.pop(0)"))
+M('visit-no-visited-add', 'break', ['C15', 'C10'],
+  (TR, "            if node_id in visited:\n                continue\n            visited.add(node_id)\n", "            if node_id in visited:\n                continue\n"))
+M('visit-by-value', 'break', ['C15', 'C10'],
+  (TR, "            node_id = id(node)\n            if node_id in visited:\n                continue\n            visited.add(node_id)", "            if node in visited:\n                continue\n            visited.add(node)"))
+M('traverse-marker-after-children', 'break', ['C15'],
+  (TR, "        stack.append(traversing._replace(is_finished=True))\n        yield traversing\n\n        def extend(items):\n            stack.extend(reversed(list(items)))\n", "        yield traversing\n\n        def extend(items):\n            stack.extend(reversed(list(items)))\n            stack.append(traversing._replace(is_finished=True))\n"))
+M('traverse-dedup-leaves-again', 'break', ['C15'],
+  (TR, "        if isinstance(child, (list, tuple, dict, ParsedObject)):\n            child_id = id(child)", "        if True:\n            child_id = id(child)"))
+M('traverse-wrong-parent', 'break', ['C15'],
+  (TR, "                _Traversing(parent=child, field=i, child=x, is_finished=False)", "                _Traversing(parent=traversing.parent, field=i, child=x, is_finished=False)"))
+M('traverse-recursive', 'break', ['C15', 'C17'],
+  (TR, "        elif isinstance(child, dict):\n            extend(\n                _Traversing(parent=child, field=k, child=v, is_finished=False)\n                for k, v in child.items()\n            )", "        elif isinstance(child, dict):\n            for k, v in child.items():\n                yield from traverse(v)"))
+
+# ---------------------------------------------------------------- C16
+M('transform-preorder', 'break', ['C16'],
+  (TR, "    if not isinstance(node, ParsedObject):\n        return node\n\n    updates = {}", "    if not isinstance(node, ParsedObject):\n        return node\n\n    node = callback(node)\n    if not isinstance(node, ParsedObject):\n        return node\n    updates = {}"))
+M('transform-setattr', 'break', ['C16'],
+  (TR, "        if now is not was:\n            updates[field] = now\n", "        if now is not was:\n            setattr(node, field, now)\n"))
+M('transform-metadata-guard-dropped', 'break', ['C16'],
+  (TR, "                    and isinstance(node, ParsedObject)\n                    and not node._metadata\n                ):", "                    and isinstance(node, ParsedObject)\n                ):"))
+M('transform-metadata-wrong-direction', 'break', ['C16'],
+  (TR, "                    node._metadata.update(prev._metadata)", "                    prev._metadata.update(node._metadata)"))
+M('transform-callbacks-reversed', 'break', ['C16'],
+  (TR, "        for f in callbacks:\n            prev = node", "        for f in reversed(callbacks):\n            prev = node"))
+M('transform-equality-test', 'break', ['C16'],
+  (TR, "        if now is not was:\n            updates[field] = now", "        if now != was:\n            updates[field] = now"))
+M('transform-lists-skipped', 'break', ['C16'],
+  (TR, "    if isinstance(node, list):\n        return [_transform(x, callback) for x in node]\n\n    if not isinstance(node, ParsedObject):", "    if not isinstance(node, ParsedObject):"))
+
+# ---------------------------------------------------------------- C17
+M('spill-plain-call-again', 'break', ['C17'],
+  (EX + 'base.py', "out += (STATUS, RESULT, POS) << Code('(yield from ', func(*params), ')')", "out += (STATUS, RESULT, POS) << func(*params)"))
+M('spill-helper-not-generator', 'break', ['C17'],
+  (EX + 'base.py', "                if not is_generator:\n                    # The caller uses `yield from`. Make sure that this is a\n                    # generator function, even if the body never yields.\n                    out += Code('yield from ()')\n\n", ""))
+M('spill-helper-forgets-freevars', 'break', ['C17'],
+  (EX + 'base.py', "params = extras + [str(TEXT), str(POS)] + list(sorted(self.freevars()))", "params = extras + [str(TEXT), str(POS)] + (list(sorted(self.freevars())) if is_generator else [])"))
+M('run-recursive', 'break', ['C17'],
+  (TR, "        else:\n            gtor = result[1](${ctx}text, result[2])\n            stack.append((result, gtor))\n            result = None", "        else:\n            try:\n                result = (True, _run(${ctx}text, result[2], result[1], False), result[2])\n            except ParseError as e:\n                result = (False, None, result[2])"))
+
+# ---------------------------------------------------------------- C18
+M('linecol-cache-global', 'break', ['C18'],
+  (TR, "def _map_index_to_line_and_column(text):\n    line_numbers = []", "_linecol_cache = {}\n\ndef _map_index_to_line_and_column(text):\n    if text in _linecol_cache:\n        return _linecol_cache[text]\n    _linecol_cache.clear()\n    line_numbers = []"),
+  (TR, "        column_numbers.append(current_column)\n\n    return line_numbers, column_numbers", "        column_numbers.append(current_column)\n\n    _linecol_cache[text] = (line_numbers, column_numbers)\n    return line_numbers, column_numbers"))
+M('linecol-cache-default-arg', 'break', ['C18'],
+  (TR, "def _map_index_to_line_and_column(text):", "def _map_index_to_line_and_column(text, _cache={}):"))
+M('regex-lazy-global', 'break', ['C18'],
+  (TR, "def _caret_at(index):", "_newline = None\n\ndef _find_newline(text, pos):\n    global _newline\n    if _newline is None:\n        _newline = _compile_re('\\n')\n    return _newline.search(text, pos)\n\n\ndef _caret_at(index):"))
+M('grammar-module-cache', 'break', ['C18'],
+  (GR, "def Grammar(description, include_source=False):\n    # Parse the grammar description.", "_modules = {}\n\n\ndef Grammar(description, include_source=False):\n    if description in _modules:\n        return _modules[description]\n    # Parse the grammar description."),
+  (GR, "    if parsed.name:\n        _install_module(name, module)\n\n    return module", "    if parsed.name:\n        _install_module(name, module)\n\n    _modules[description] = module\n    return module"))
+M('ctx-mutated-in-parse', 'break', ['C18'],
+  (TR, "def parse(text, pos=0, fullparse=True):\n    return _run(${ctx}text, pos, $start, fullparse)\n\n\n_PositionInfo", "_last = {}\n\ndef parse(text, pos=0, fullparse=True):\n    _last['text'] = text\n    return _run(${ctx}text, pos, $start, fullparse)\n\n\n_PositionInfo"))
+
+# ---------------------------------------------------------------- C19
+M('right-keeps-left', 'break', ['C19'],
+  (EX + 'sugar.py', "def Right(expr1, expr2):\n    return Discard(expr1, expr2, discard_left=True)", "def Right(expr1, expr2):\n    return Discard(expr1, expr2, discard_left=False)"))
+M('some-min-zero', 'break', ['C19'],
+  (EX + 'sugar.py', "    return List(expr, min_len=1)", "    return List(expr, min_len=0)"))
+M('slashq-no-trailer', 'break', ['C19', 'C03'],
+  (TR, "'/?': lambda a, b: ex.Sep(a, b, allow_trailer=True),", "'/?': lambda a, b: ex.Sep(a, b, allow_trailer=False),"))
+M('sep-default-trailer', 'break', ['C19'],
+  (EX + 'sep.py', "            discard_separators=True,\n            allow_trailer=False,", "            discard_separators=True,\n            allow_trailer=True,"))
+M('choice-flatten-right-first', 'break', ['C19'],
+  (TR, "        return ex.Choice(*left, *right)", "        return ex.Choice(*right, *left)"))
+M('repeat-stop-dropped', 'break', ['C19', 'C03'],
+  (TR, "            return ex.List(left, min_len=start, max_len=stop)", "            return ex.List(left, min_len=start, max_len=start)"))
+M('string-ignorecase-unescaped', 'break', ['C01'],
+  (TR, "            return ex.Regex(re.escape(value), ignore_case=True)", "            return ex.Regex(value, ignore_case=True)"))
+M('regex-literal-keeps-slash', 'break', ['C01'],
+  (TR, "        # Remove /slash/ delimiters.\n        value = value[1:-1]", "        # Remove /slash/ delimiters.\n        value = value[1:]"))
+
+# ---------------------------------------------------------------- C20
+M('new-temporary-base', 'break', ['C20'],
+  (EX + 'opt.py', "backtrack = out.var('backtrack', POS)", "backtrack = out.var('saved', POS)"))
+M('new-builtin-use', 'break', ['C20'],
+  (TR, "    result = _ByteLiteral(byte_value)", "    result = _ByteLiteral(int(byte_value))"))
+M('underscore-temporary-benign', 'benign', ['C20', 'C01'],
+  (EX + 'opt.py', "backtrack = out.var('backtrack', POS)", "backtrack = out.var('_backtrack', POS)"))
